@@ -128,6 +128,9 @@ def step (st : DS) (line : String) : DS × String :=
   | ["wf"] => (st, bstr b.wf)
   | ["state"] => (st, s!"{bstr (b.inCheck b.stm)}{bstr b.isCheckmate}{bstr b.isStalemate}{bstr (Rules.inCheck b.abs b.stm)}{bstr (Rules.isCheckmate b.abs)}{bstr (Rules.isStalemate b.abs)}")
   | ["three"] => (st, toString b.threefold)
+  | "threeh" :: hs =>   -- Threefold() of a board whose hash history is the given list (LAST = current), hex words
+    let l : List BB := hs.map fun h => BitVec.ofNat 64 (parseHex h)
+    (st, toString ({ Board.empty with hashes := l.reverse } : Board).threefold)
   | ["fenout"] => (st, Fen.printFEN b)
   | ["calc"] => (st, hx (b.calcHash K))
   | ["ipc"] => (st, bstr b.invalidPieceCount)
